@@ -128,6 +128,8 @@ enum Case {
     Law(&'static str, String, String),
     Sort(Vec<V>),
     Decode(Vec<u8>),
+    /// round(x, p) for every precision 0..=18
+    Round(f64),
 }
 
 pub struct P11 {
@@ -214,6 +216,24 @@ impl P11 {
             let lit = V::Float(x).to_src();
             cases.push(Case::Law("float(str(x)) == x", format!("let x = {}; float(str(x)) == x", lit), "true".into()));
         }
+        // round: sixteenths (exact ties at every precision up to 4), values whose scaled form passes 2^52
+        // (2^a + j/16 has fractional bits that scaling by 10^p pushes out), thirds and tenths
+        let mut rounds: Vec<f64> = (-2048..=2048).map(|k| k as f64 / 16.0).collect();
+        for a in 36..=52 {
+            for j in 0..16 {
+                rounds.push((1u64 << a) as f64 + j as f64 / 16.0);
+                rounds.push(-((1u64 << a) as f64) - j as f64 / 16.0);
+            }
+        }
+        for k in 1..=60 {
+            rounds.push(10f64.powi(k % 16) / 3.0);
+            rounds.push(k as f64 / 10.0 + 4.0);
+            rounds.push(5.0 * 10f64.powi(k % 16) + 0.0625);
+        }
+        rounds.extend([4.6000000000000005, 500000000000000.0625, 400000000000000.0625, 4503599627370495.5, 1.115, 2.675, 1e300, -1e300, 5e-324, 0.1, 123456.789]);
+        for x in rounds {
+            cases.push(Case::Round(x));
+        }
         let alpha = ["a", "é", "€", "𝄞", "\u{0}", " "];
         for s in strings_over(&alpha, 3) {
             // strings are injected through char() so that NUL and multi-byte characters need no literal syntax
@@ -288,6 +308,7 @@ impl Property for P11 {
             Case::Law(n, p, w) => json!({"law": n, "program": p, "expected": w}),
             Case::Sort(v) => json!({"sort": arr(v.clone()).to_src()}),
             Case::Decode(b) => json!({"decode_utf8": b}),
+            Case::Round(x) => json!({"round": format!("round({:?}, p) for p in 0..=18", x)}),
         }
     }
     fn run(&self, idx: u64) -> CaseOut {
@@ -308,6 +329,30 @@ impl Property for P11 {
                 Ok(Outcome::Value(v)) if v == *want => CaseOut::pass(format!("law {}", name)),
                 Ok(o) => CaseOut::viol(format!("law {} broken", name), format!("`{}` gave {:?}, the law requires {}", prog, o, want)),
             },
+            Case::Round(x) => {
+                for p in 0..=18i64 {
+                    let got = match eval_call("round", &[V::Float(*x), V::Int(p)]) {
+                        Ok((Outcome::Value(g), _)) => g,
+                        other => return CaseOut::viol("round fails", format!("round({:?}, {}) gave {:?}", x, p, other)),
+                    };
+                    let m = 10f64.powi(p as i32);
+                    let scaled = x * m;
+                    // the double nearest to the exact decimal expansion rounded at p digits; below 2^52 the
+                    // documented computation round(x * 10^p) / 10^p is accepted as well (it differs at exact
+                    // ties, half away from zero, and by the error of the scaling)
+                    let mut accepted: Vec<f64> = vec![format!("{:.*}", p as usize, x).parse().unwrap()];
+                    if scaled.is_finite() && scaled.abs() < 4503599627370496.0 {
+                        accepted.push(scaled.round() / m);
+                    }
+                    if !accepted.iter().any(|a| got.starts_with(&format!("[{},", canon_f64(*a)))) {
+                        return CaseOut::viol(
+                            if scaled.abs() >= 4503599627370496.0 { "round beyond 2^52 wrong" } else { "round wrong" },
+                            format!("round({:?}, {}) gave {}; {} digits after the point give {:?}", x, p, got, p, accepted),
+                        );
+                    }
+                }
+                CaseOut::pass("round law").with_counts(19, 19, 19)
+            }
             Case::Decode(bytes) => {
                 let a = arr(bytes.iter().map(|b| V::Byte(*b)).collect());
                 let (o, v) = judge_call("decode_utf8", &[a]);
@@ -404,7 +449,7 @@ impl Property for P11 {
         }
     }
     fn rule(&self) -> String {
-        format!("the {} pure builtins x arity 0..3 x every tuple of {} argument kinds (incl. three array flavours, map, closure, builtin, error object), called through the real VM with injected arguments; then every documented signature x boundary values (all singles and pairs of 69 values, a reduced cube for 3 arguments); laws over completely enumerated domains: int(str(n)) == n for |n| <= 4096 and integer limits, float(str(x)) == x for k/8 with |k| <= 4096 and extreme finite floats, the three UTF-8/chars round trips for all strings of length <= 3 over {{a, é, €, 𝄞, NUL, space}}, decode_utf8 on all byte arrays of length <= 3 over 8 bytes, sort on all arrays of length <= 5 (<= 4 for the larger domains) over 9 mutually comparable domains (ints, floats, strings, chars, bytes, an int/float mix, the integer limits with the neighbours of 2^53, extreme floats, large integers mixed with the doubles next to them) plus long arrays. Oracle: the contract table mc/src/refbuiltins.rs transcribed from docs/language/builtins.md (documented kinds => documented result and argument mutation; anything else => runtime error whose message starts with the builtin's name)", PURE.len(), self.kinds.len())
+        format!("the {} pure builtins x arity 0..3 x every tuple of {} argument kinds (incl. three array flavours, map, closure, builtin, error object), called through the real VM with injected arguments; then every documented signature x boundary values (all singles and pairs of 69 values, a reduced cube for 3 arguments); laws over completely enumerated domains: int(str(n)) == n for |n| <= 4096 and integer limits, float(str(x)) == x for k/8 with |k| <= 4096 and extreme finite floats, the three UTF-8/chars round trips for all strings of length <= 3 over {{a, é, €, 𝄞, NUL, space}}, decode_utf8 on all byte arrays of length <= 3 over 8 bytes, round(x, p) for every p in 0..=18 and x over k/16 (|k| <= 2048), +-(2^a + j/16) for a in 36..=52, thirds, tenths and 5*10^k + 1/16 (result = the double nearest to the exact decimal expansion rounded at p digits; below 2^52 the documented round(x*10^p)/10^p is accepted as well), sort on all arrays of length <= 5 (<= 4 for the larger domains) over 9 mutually comparable domains (ints, floats, strings, chars, bytes, an int/float mix, the integer limits with the neighbours of 2^53, extreme floats, large integers mixed with the doubles next to them) plus long arrays. Oracle: the contract table mc/src/refbuiltins.rs transcribed from docs/language/builtins.md (documented kinds => documented result and argument mutation; anything else => runtime error whose message starts with the builtin's name)", PURE.len(), self.kinds.len())
     }
     fn bounds(&self) -> Value {
         json!({"cases": self.cases.len(), "builtins": PURE.len(), "argument_kinds": self.kinds.len()})
